@@ -26,6 +26,9 @@ TEXT = {
     "C10": "current_local_parent() after every step equals the abstract scope stack; closing a scope restores the context; local collectors shadow; inert without a local parent.",
     "C11": "from_span / current_local_parent return the right trace, span and flag; a root made from such a context (directly or through the traceparent codec) is delivered under that span.",
     "C18": "Every delivered record's begin time lies in the wall-clock bracket of the call that created the span and its duration between the monotonic brackets of the creating and finishing calls (harness-side clock readings around each call, stated tolerances); local spans nest inside their parents, siblings do not overlap, events lie inside their span; elapsed() within its bracket.  Decided by trace validation only (the model has no clock): level exploration.",
+    "C13": "in_span(span): the span is the local parent during every poll and the previous context is back afterwards (context queries inside and after polls); the span finishes exactly at completion or drop; what the final poll recorded is part of the trace (cancelable mode: same batch). enter_on_poll: one local span per poll. All poll sequences up to the bound, with migration between two threads, cycles at every push incl. those inside the final poll.",
+    "C14": "The same for fastrace-futures' Stream and Sink adapters (poll_next / poll_ready / start_send / poll_flush / poll_close), driven through the real adapters around a scripted inner stream / sink.",
+    "C16": "Built without the `enable` feature (second harness build) every call is inert: no reporter call, no thread from set_reporter, no context, no closure invoked; with the feature on the same for spans that are not recording (no reporter installed, no-op parents, no local parent).",
     "C17": "A collected local-span set pushed to several parents yields identical subtrees under each parent.",
 }
 
